@@ -10,5 +10,6 @@ S = Simple("C04", "hashmac", "hashmac.cpp",
            "customisation 0..40 B). mac_verify cases: the correct tag must give 0; all 128 single-bit flips / a random tag / the tag of a "
            "prefix / one generated bit / a tag under another key must give -1. PrfShort: -1 iff in>16 or out>16 (only the status is asserted then). "
            "Non-trivial: HMAC key length != 32 or message > 1024, every other mode. Distinct by case hash.",
-           ["reference model pinned to frozen Prf/Mac/PrfShort/HMAC(A)/KMAC(A) vectors", "2^-128 chance of a random tag being right"])
+           ["reference model pinned to frozen Prf/Mac/PrfShort/HMAC(A)/KMAC(A) vectors", "2^-128 chance of a random tag being right"],
+           post=lambda ev, tier: __import__("huge").run(ev, [("huge_mac", 4, 2)]) if tier == "thorough" else None)
 run, replay = S.run, S.replay
